@@ -10,14 +10,35 @@ NOTE = ""
 ASSUMPTIONS = []
 DESIGN_REF = "DESIGN.md §5 C33, §3.8"
 
-def np_ob(name, L, front=False, extra=(), **kw):
+PTR_UB = "pointer relation: pointer outside object bounds in cp + "
+
+def np_ob(name, L, mode, front=True, **kw):
+    """mode 'safe': all cbmc memory checks, no reference; 'func': reference equivalence, memory checks
+    off (the same calls are covered by a 'safe' obligation at >= the same L)."""
+    S = (L + 1) + (L + 3) // 2 + 1
     d = dict(name=name, harness="C33_name_parse.c", entry="harness_name_parse",
-             defines=["C33_L=%d" % L] + (["C33_FRONT"] if front else []) + list(extra),
-             unwind=2 * L + 6, timeout=900, mem_gb=8,
-             desc="name_parse on a symbolic %d-byte object (%s-aligned message of symbolic length), symbolic start index and output size, vs reference decoder; exact-size objects" % (L, "front" if front else "tail"))
+             defines=["C33_L=%d" % L] + (["C33_FRONT"] if front else []) + (["C33_NOREF"] if mode == "safe" else []),
+             unwind=2,
+             unwindset=["name_parse.2:%d" % (S + 1), "vp_memcpy.0:%d" % (L + 1), "dnsref_name.0:%d" % (L + 1),
+                        "dnsref_name.1:%d" % (S + 2), "harness_name_parse.0:%d" % (L + 4), "vp_bytes.0:%d" % (L + 1)],
+             timeout=900, mem_gb=4)
+    if mode == "safe":
+        d["expect_fail"] = [PTR_UB]
+        d["desc"] = ("name_parse memory safety + termination: symbolic packet object of %d bytes (message = symbolic-length %s of it), "
+                     "symbolic start index, symbolic output size 0..%d in an exact object; every read/write in bounds, loop ends within %d iterations"
+                     % (L, "prefix" if front else "suffix", L + 2, S))
+    else:
+        d["cbmc"] = ["--no-pointer-check", "--no-bounds-check"]
+        d["desc"] = ("name_parse == RFC 1035 reference decoder (result, decoded text, index after the name; failure iff malformed/loop/does not fit) "
+                     "for every packet <= %d bytes, start index, output size 0..%d" % (L, L + 2))
     d.update(kw)
     return d
 
 def obligations(tier):
-    obs = [np_ob("name_parse_L8", 8)]
+    if tier == "quick":
+        obs = [np_ob("np_safe_front_L12", 12, "safe"), np_ob("np_safe_tail_L8", 8, "safe", front=False),
+               np_ob("np_func_L8", 8, "func")]
+    else:
+        obs = [np_ob("np_safe_front_L16", 16, "safe"), np_ob("np_safe_tail_L12", 12, "safe", front=False),
+               np_ob("np_func_L9", 9, "func")]
     return obs
